@@ -39,7 +39,12 @@ def demo_placement(demo_src):
     return "file", "tests/seed_demo.rs"
 
 
-def run_tests(wt, what):
+def demo_features(demo_src):
+    m = re.search(r"--features[ =]([a-z,]+)", "\n".join(demo_src.splitlines()[:6]))
+    return m.group(1) if m else None
+
+
+def run_tests(wt, what, feats=None):
     """what = 'suite' | ('file', path) | ('append', path, names)"""
     if what == "suite":
         rc, out = sh("cargo test --workspace --no-fail-fast --offline 2>&1 | grep -E '^test result|FAILED|panicked' | head -30", cwd=wt)
@@ -48,11 +53,12 @@ def run_tests(wt, what):
     kind, path = what[0], what[1]
     if kind == "file":
         name = os.path.splitext(os.path.basename(path))[0]
-        rc, out = sh("cargo test --offline --test %s 2>&1 | tail -40" % name, cwd=wt)
+        rc, out = sh("cargo test --offline %s --test %s 2>&1 | tail -40" % (("--features " + feats) if feats else "", name), cwd=wt)
     else:
-        rc, out = sh("cargo test --offline --lib seed 2>&1 | tail -40", cwd=wt)
+        fl = ("--features " + feats) if feats else ""
+        rc, out = sh("cargo test --offline %s --lib seed 2>&1 | tail -40" % fl, cwd=wt)
         if "running 0 tests" in out:
-            rc, out = sh("cargo test --offline --lib 2>&1 | tail -40", cwd=wt)
+            rc, out = sh("cargo test --offline %s --lib 2>&1 | tail -40" % fl, cwd=wt)
     ok = "test result: ok" in out and "FAILED" not in out
     ran = re.findall(r"test result: \w+\. (\d+) passed; (\d+) failed", out)
     return ok, out[-1500:], ran
@@ -87,7 +93,9 @@ def confirm(pid, k):
                 open(target, "a").write("\n" + demo_src)
         # 1. without the change: demo passes
         place_demo()
-        ok0, out0, ran0 = run_tests(wt, (kind, path))
+        feats = demo_features(demo_src)
+        meta["demo_features"] = feats
+        ok0, out0, ran0 = run_tests(wt, (kind, path), feats)
         meta["demo_passes_without_change"] = bool(ok0)
         meta["demo_tests_run"] = ran0
         # 2. with the change
@@ -97,7 +105,7 @@ def confirm(pid, k):
             meta["applies"] = False
             return 1
         meta["applies"] = True
-        ok1, out1, ran1 = run_tests(wt, (kind, path))
+        ok1, out1, ran1 = run_tests(wt, (kind, path), feats)
         meta["demo_fails_with_change"] = not ok1 and ("FAILED" in out1 or "panicked" in out1 or "failed" in out1)
         meta["demo_output_with_change_tail"] = out1[-600:]
         # 3. existing suite with the change (demo removed)
